@@ -71,7 +71,7 @@ class TermMatch:
         """[(facts, value)] of the expression handed to `Term(index_=...)`: its gated value (helpers read through,
         the match's group dictionary read through) split at every conditional."""
         from fsa.gated import SymExec, canon, leaves
-        se = SymExec(self.f.fi.node, extra_helpers=self.f._pure_helpers())
+        se = self.f.symexec()
         ix = kwarg(self.term, 'index_') or self.term.args[2]
         v = canon(se.value(self.ret.ast, ix))
         return leaves(v)
